@@ -1,22 +1,518 @@
-"""C17 — PLACEHOLDER owned by the tables package (PiTable, SegmentedPiTable, FactorTable, ...).
-This copy only wires in the counting-sieve half (pcv/props/c17sieve.py) so that `./check C17` runs in the
-sieve work package's tree; when merging keep the tables package's file and add
-    from . import c17sieve;  streams += c17sieve.streams(ctx);  generated_obligations += c17sieve.generated_obligations()
-"""
-from . import c17sieve
+"""C17 (lookup-table half) — PiTable / pi_cache_, SegmentedPiTable, FactorTable(D), generate_*,
+BinaryIndexedTree answer every query exactly.  (The sieve half lives in pcv/props/c17sieve.py, merged
+below when that module exists.)"""
+import os
+import re
 
-RULE = c17sieve.RULE
-TRUSTED = c17sieve.TRUSTED
-ASSUMPTIONS = c17sieve.ASSUMPTIONS
+from ..runner import Stream, emit_violation, default_search
+from .. import core
+
+RULE = ("tables: every x < 30720 on pi_cache; PiTable limits 0,1,5,6,7,239..241,30719..30721, +-1 around the "
+        "thread split points of PiTable::init (1e7-rounded-to-240 multiples) for 1..16 (thorough: 64) requested threads, "
+        "raw word dumps / hashes; SegmentedPiTable: seeded init sequences (consecutive, overlapping, backwards, gaps; "
+        "starts multiples of 240) with queries and raw dumps after every init; FactorTable: EVERY y <= 300 (uint16 and "
+        "uint32, F3 region 13 <= y < 169), FactorTableD every z <= 300, seeded larger, multi-thread hashes; to_index/"
+        "to_number for all n <= 5000; generate_pi/lpf/moebius/mpf all n <= 300 + seeded; BinaryIndexedTree seeded op "
+        "sequences. distinct = distinct op lines whose table/segment/sieve is non-empty")
+TRUSTED = [
+    "PROVED for all inputs on the L2 models (PcProps/C17.lean): piCache_correct, bitPiTable_lookup, piTable_ranges_disjoint, "
+    "piTable_correct, segPi_correct (+ segPi_init_succeeds), ftToIndex/ftToNumber_correct, factorTable_correct (REPAIRED "
+    "constructor, F3), factorTableD_correct, generatePi_correct, generateLpf_correct; generate_moebius / generate_mpf / "
+    "BinaryIndexedTree are tied by the mirror AND the spec correspondence streams only (no theorem)",
+    "bundled primesieve (primesieve::iterator, generate_primes): parameter `gen` of the L2 models; the theorems carry the "
+    "named hypothesis PrimeGenSpec (primes of [lo, hi), increasing; discharged by C18); pcdrv instantiates it with its own "
+    "segmented byte sieve",
+    "pi_noprint(low-1) inside SegmentedPiTable::init: parameter `piNoprint` (hypothesis = C01)",
+    "translator/dump_tables.cpp + harness/ops_tables.cpp read private/protected members by lifting access specifiers "
+    "for BitSieve240.hpp, PiTable.hpp, SegmentedPiTable.hpp, Sieve.hpp, BaseFactorTable.hpp (no layout change)",
+    "OpenMP: the per-thread ranges are proved disjoint and covering (piTable_ranges_disjoint; FactorTable thread split inside "
+    "factorTable_correct); the model runs the threads in index order with the barrier between init_bits and init_count",
+    "harness replaces global operator new/delete (malloc/free; memory preset to 0xa5 only while a FactorTable is "
+    "constructed) so that never-written entries are observable deterministically",
+]
+ASSUMPTIONS = [
+    "max_x + 1 does not wrap (max_x < 2^64 - 1) and the table fits in memory",
+    "SegmentedPiTable::init is called with low < high and low % 240 == 0 (its ASSERTs); queries satisfy low <= x < high",
+    "FactorTable: y <= FactorTable<T>::max() else primecount_error (modelled); generate_*: 0 <= max < 2^31",
+    "BinaryIndexedTree: odd sieve positions are 0 and update() is called only for set even positions (as pi_lmo4 does)",
+]
+
+PI_CACHE_LIMIT = 128 * 240
+THRESH = 10 ** 7
 
 
 def generated_obligations():
-    return c17sieve.generated_obligations()
+    # (pcv/props/c17sieve.py accounts for its own generated obligations inside its streams())
+    return _own_obligations()
+
+
+def _own_obligations():
+    import sys
+    tdir = os.path.join(core.ROOT, "translator")
+    if tdir not in sys.path:
+        sys.path.insert(0, tdir)
+    import extract_tables
+    return extract_tables.count_obligations()
+
+
+# ----------------------------------------------------------------------------------------- python mirrors
+# (only used to PLACE the test points and to pinpoint witnesses; never part of a verdict)
+
+def ideal_threads(limit, threads, thr=THRESH):
+    mx = -(-limit // thr)
+    if threads < 1 or mx < 1:
+        return 1
+    return min(threads, mx)
+
+
+def pit_params(max_x, threads):
+    limit = max_x + 1
+    dist = limit - PI_CACHE_LIMIT
+    t = ideal_threads(dist, threads)
+    td = max(THRESH, dist // t)
+    td += 240 - td % 240
+    return t, td
+
+
+COPRIME = [n for n in range(1, 2311) if all(n % q for q in (2, 3, 5, 7, 11))]
+
+
+def to_number(i):
+    return 2310 * (i // 480) + COPRIME[i % 480]
+
+
+# ----------------------------------------------------------------------------------------------- streams
+
+def _pit_ops(ctx):
+    rng = ctx.rng
+    q_ops, raw_ops, hash_ops = [], [], []
+    small = [0, 1, 2, 4, 5, 6, 7, 10, 29, 30, 31, 239, 240, 241, 479, 480, 481, 1000, 2309, 2310,
+             30718, 30719, 30720, 30721, 30722, 30959, 30960, 30961, 31199, 31200, 31201]
+    small += [rng.randrange(0, 40000) for _ in range(12 if ctx.quick else 200)]
+    thr_all = list(range(1, 17)) + [64, 0, -3]
+    for k, mx in enumerate(small):
+        ths = thr_all if mx in (0, 1, 239, 240, 241, 30719, 30720, 30721) else [thr_all[k % len(thr_all)], 1]
+        for th in ths:
+            if mx <= 2500:
+                qs = list(range(0, mx + 1))
+            else:
+                qs = sorted(set([0, 1, 5, 6, 7, 239, 240, 241, 30719, 30720, 30721, mx - 2, mx - 1, mx] +
+                                [240 * (mx // 240) + d for d in (-1, 0, 1)] +
+                                [rng.randrange(0, mx + 1) for _ in range(40)]))
+                qs = [q for q in qs if 0 <= q <= mx]
+            q_ops.append("pit %d %d %s" % (mx, th, " ".join(map(str, qs))))
+        raw_ops.append("pitraw %d %d" % (mx, ths[0]))
+    # thread split points: low_t = 30720 + thread_dist * t
+    big = []
+    req = [2, 3, 4] if ctx.quick else list(range(2, 17))
+    for th in req:
+        # smallest tables that really use `th` threads: dist just above (th-1)*1e7; split of the last thread
+        td = THRESH + (240 - THRESH % 240)
+        split = PI_CACHE_LIMIT + td * (th - 1)
+        for d in (-2, -1, 0, 1):
+            big.append((split + d, th))          # max_x = split-1 -> limit = split: last thread empty
+        big.append((split + 12345, th + 3))       # more threads requested than useful
+    # thread_dist derived from dist / threads (above the threshold)
+    for th, dist in ((2, 2 * THRESH + 4801), (3, 3 * THRESH + 7 * 240)) if ctx.quick else \
+            ((2, 2 * THRESH + 4801), (3, 3 * THRESH + 7 * 240), (5, 6 * THRESH + 11), (7, 9 * THRESH + 239), (16, 16 * THRESH + 240 * 16)):
+        mx = PI_CACHE_LIMIT + dist - 1
+        t, td = pit_params(mx, th)
+        for tt in (1, t - 1):
+            split = PI_CACHE_LIMIT + td * tt
+            big.append((split - 1, th))
+            big.append((split, th))
+        big.append((mx, th))
+        big.append((mx + 240 * th, th))
+        big.append((mx - 240 * th + 1, th))
+    if ctx.quick:
+        big.append((PI_CACHE_LIMIT + 16 * THRESH + 5000, 16))
+    else:
+        big.append((PI_CACHE_LIMIT + 64 * THRESH + 5000, 64))
+        for _ in range(20):
+            big.append((rng.randrange(PI_CACHE_LIMIT, 5 * THRESH), rng.choice([1, 2, 3, 4, 5, 8, 16])))
+    seen = set()
+    for mx, th in big:
+        if (mx, th) in seen:
+            continue
+        seen.add((mx, th))
+        hash_ops.append("pithash %d %d" % (mx, th))
+        t, td = pit_params(mx, th)
+        qs = set([mx, mx - 1, 30719, 30720])
+        for tt in range(1, t + 1):
+            s = PI_CACHE_LIMIT + td * tt
+            qs.update([s - 1, s, s + 1, s + 239, s + 240])
+        qs.update(rng.randrange(PI_CACHE_LIMIT, mx + 1) for _ in range(20))
+        q_ops.append("pit %d %d %s" % (mx, th, " ".join(str(q) for q in sorted(qs) if 0 <= q <= mx)))
+    return q_ops, raw_ops, hash_ops
+
+
+def _seg_ops(ctx, with_raw):
+    rng = ctx.rng
+    ops = []
+    nseq = 60 if ctx.quick else 1500
+    for s in range(nseq):
+        top = rng.choice([2000, 20000, 200000, 2000000])
+        toks = []
+        n_init = rng.randint(1, 8)
+        low = 240 * rng.randrange(0, max(1, top // 240))
+        prev_high = None
+        for k in range(n_init):
+            mode = rng.choice(["consecutive", "consecutive", "overlap", "back", "gap", "same", "zero"])
+            size = rng.choice([1, 2, 5, 6, 7, 239, 240, 241, 480, 720, 1000, rng.randint(1, 5000)])
+            if rng.random() < 0.5:
+                size = 240 * max(1, size // 240 + (1 if size % 240 else 0))   # aligned_segment_size
+            if prev_high is not None:
+                if mode == "consecutive" and prev_high % 240 == 0:
+                    low = prev_high
+                elif mode == "overlap":
+                    low = max(0, 240 * ((prev_high - rng.randint(1, 2000)) // 240))
+                elif mode == "back":
+                    low = max(0, low - 240 * rng.randint(1, 20))
+                elif mode == "gap":
+                    low = 240 * (prev_high // 240 + rng.randint(1, 30))
+                elif mode == "zero":
+                    low = 0
+                elif mode == "same":
+                    pass
+                else:
+                    low = 240 * (prev_high // 240 + 1) if prev_high % 240 else prev_high
+            high = low + size
+            toks.append("%d:%d" % (low, high))
+            qs = set([low, high - 1, (low + high) // 2])
+            for d in (5, 6, 7, 239, 240, 241):
+                if low + d < high:
+                    qs.add(low + d)
+            last = 240 * ((high - 1) // 240)
+            for q in (last - 1, last, last + 1):
+                if low <= q < high:
+                    qs.add(q)
+            for _ in range(4):
+                qs.add(rng.randrange(low, high))
+            toks += [str(q) for q in sorted(qs)]
+            if with_raw and size <= 1500:
+                toks.append("r")
+            prev_high = high
+        ops.append("segpi " + " ".join(toks))
+    # exhaustive small scope: every query of short consecutive walks
+    for lo in (0, 240, 480, 30720 - 240):
+        toks = []
+        for j in range(3):
+            a, b = lo + 240 * j, lo + 240 * (j + 1)
+            toks.append("%d:%d" % (a, b))
+            toks += [str(q) for q in range(a, b)]
+            if with_raw:
+                toks.append("r")
+        ops.append("segpi " + " ".join(toks))
+    return ops
+
+
+def _ft_ops(ctx):
+    rng = ctx.rng
+    dump, dump_d, hashes = [], [], []
+    for y in list(range(-2, 301)):
+        for bits in (16, 32):
+            dump.append("ft %d %d %d" % (y, 1 + (y % 4), bits))
+    for z in range(-1, 301):
+        y = rng.randint(-1, max(1, z + 3))
+        dump_d.append("ftd %d %d %d %d" % (y, z, 1 + (z % 3), 16 if z % 2 else 32))
+        if z % 5 == 0:
+            dump_d.append("ftd %d %d 1 32" % (z, z))
+    for _ in range(25 if ctx.quick else 400):
+        y = rng.choice([rng.randint(300, 3000), rng.randint(3000, 60000), 2310 * rng.randint(1, 20) + rng.randint(-2, 2),
+                        13 * 13 * rng.randint(1, 50) + rng.randint(-1, 1)])
+        dump.append("ft %d %d %d" % (y, rng.randint(1, 8), rng.choice([16, 32])))
+        z = rng.choice([rng.randint(300, 3000), rng.randint(3000, 40000), 2310 * rng.randint(1, 15) + rng.randint(-2, 2)])
+        dump_d.append("ftd %d %d %d %d" % (rng.randint(1, z), z, rng.randint(1, 8), rng.choice([16, 32])))
+    # beyond max(): primecount_error
+    # (for uint32_t max() exceeds INT64_MAX, so the test can only fire for uint16_t)
+    mx = (2 ** 16 - 2) ** 2 - 1
+    for d in (1, 2, 10 ** 6):
+        dump.append("ft %d 1 16" % (mx + d))
+        dump_d.append("ftd 100 %d 3 16" % (mx + d))
+    # several threads really used: y > 1e7 (thread_distance is a multiple of 2310)
+    big = [(2 * THRESH + 1, 2), (2 * THRESH + 4621, 5)] if ctx.quick else \
+        [(2 * THRESH + 1, 2), (2 * THRESH + 4621, 5), (3 * THRESH + 2309, 3), (5 * THRESH + 17, 16), (4 * THRESH, 64)]
+    for y, th in big:
+        hashes.append("fthash %d %d 32" % (y, th))
+        hashes.append("ftdhash %d %d %d 32" % (rng.randint(1000, 100000), y, th))
+        t = ideal_threads(y, th)
+        td = -(-y // t)
+        td += 2310 - td % 2310
+        for d in (-1, 0, 1):     # last thread's range [td*(t-1)+1, y] has 0, 1, 2 numbers
+            yy = td * (t - 1) + 1 + d
+            if ideal_threads(yy, th) == t:
+                hashes.append("fthash %d %d 32" % (yy, th))
+    idx = ["ftidx %d" % n for n in range(1, 5001)] + ["ftnum %d" % i for i in range(0, 1100)]
+    for _ in range(300):
+        idx.append("ftidx %d" % rng.randrange(1, 10 ** 7))
+        idx.append("ftnum %d" % rng.randrange(0, 2 * 10 ** 6))
+    return dump, dump_d, hashes, idx
+
+
+def _gen_ops(ctx):
+    rng = ctx.rng
+    ops = []
+    for n in range(0, 301):
+        for g in ("genpi", "genlpf", "genmu", "genmpf", "genprimes"):
+            ops.append("%s %d" % (g, n))
+    for _ in range(10 if ctx.quick else 200):
+        n = rng.choice([rng.randint(300, 5000), rng.randint(5000, 60000), rng.randint(30, 240) ** 2 + rng.randint(-1, 1)])
+        for g in ("genpi", "genlpf", "genmu", "genmpf", "genprimes"):
+            ops.append("%s %d" % (g, n))
+    return ops
+
+
+def _bit_ops(ctx):
+    rng = ctx.rng
+    ops = []
+    for s in range(150 if ctx.quick else 3000):
+        size = rng.choice([2, 3, 4, 8, 16, 17, 64, 100, 128, 256, 511, 512, rng.randint(2, 600)])
+        p = rng.choice([0.1, 0.5, 0.9, 1.0])
+        sieve = [1 if (i % 2 == 0 and rng.random() < p) else 0 for i in range(size)]
+        toks = ["".join(map(str, sieve))]
+        half = size // 2
+        live = [i for i in range(0, 2 * half, 2) if sieve[i]]
+        low = rng.choice([0, 1, 1, 7, 1000001])
+        for _ in range(rng.randint(1, 40)):
+            if live and rng.random() < 0.4:
+                pos = live.pop(rng.randrange(len(live)))
+                toks.append("u:%d" % pos)
+            else:
+                d = rng.randrange(0, 2 * half)
+                toks.append("c:%d:%d" % (low, low + d))
+        toks.append("c:%d:%d" % (low, low + 2 * half - 1))
+        ops.append("bit " + " ".join(toks))
+    return ops
+
+
+def _rename(mapping):
+    def f(ops, impl):
+        out = []
+        for o in ops:
+            p = o.split(" ", 1)
+            out.append(mapping[p[0]] + (" " + p[1] if len(p) > 1 else ""))
+        return out
+    return f
+
+
+def _nontrivial(op, res):
+    p = op.split()
+    if p[0] in ("pit", "pitraw", "pithash"):
+        return op if int(p[1]) >= 6 else None
+    if p[0] in ("ft", "fthash"):
+        return op if int(p[1]) >= 13 else None
+    if p[0] in ("ftd", "ftdhash"):
+        return op if int(p[2]) >= 13 else None
+    if p[0].startswith("gen") or p[0] in ("ftidx", "ftnum"):
+        return op if int(p[1]) >= 2 else None
+    return op
+
+
+def _classify(op, res):
+    p = op.split()
+    if p[0] in ("pit", "pithash", "pitraw"):
+        mx, th = int(p[1]), int(p[2])
+        if mx < PI_CACHE_LIMIT:
+            return p[0] + ":cache-only"
+        return "%s:threads-used=%d" % (p[0], pit_params(mx, th)[0])
+    if p[0] == "ft":
+        y = int(p[1])
+        return "ft:F3-region" if 13 <= y < 169 else ("ft:y<13" if y < 13 else "ft:y>=169")
+    return p[0]
 
 
 def streams(ctx):
-    return c17sieve.streams(ctx)
+    sts = []
+    tmo = 900 if ctx.quick else 7200
+    # pi_cache_: every x < 30720, against the L2 lookup and against the oracle sieve
+    cache_ops = ["picache %d" % x for x in range(0, PI_CACHE_LIMIT)]
+    sts.append(Stream("tables-picache-mirror", cache_ops, oracle=False, nontrivial=_nontrivial, classify=_classify, timeout=tmo))
+    q_ops, raw_ops, hash_ops = _pit_ops(ctx)
+    sts.append(Stream("tables-pit-mirror", q_ops + raw_ops + hash_ops, oracle=False, nontrivial=_nontrivial,
+                      classify=_classify, timeout=tmo))
+    spec_q = [o for o in q_ops if int(o.split()[1]) <= 3 * 10 ** 6]
+    sts.append(Stream("tables-pit-spec", spec_q, oracle=True, model_ops=_rename({"pit": "pitspec"}),
+                      nontrivial=_nontrivial, classify=_classify, timeout=tmo))
+    seg = _seg_ops(ctx, True)
+    sts.append(Stream("tables-segpi-mirror", seg, oracle=False, classify=_classify, timeout=tmo))
+    seg2 = _seg_ops(ctx, False)
+    sts.append(Stream("tables-segpi-spec", seg2, oracle=True, model_ops=_rename({"segpi": "segpispec"}),
+                      classify=_classify, timeout=tmo))
+    dump, dump_d, hashes, idx = _ft_ops(ctx)
+    sts.append(Stream("tables-ft-spec", dump + dump_d, oracle=True, model_ops=_rename({"ft": "ftspec", "ftd": "ftdspec"}),
+                      nontrivial=_nontrivial, classify=_classify, timeout=tmo))
+    sts.append(Stream("tables-ft-mirror", dump + dump_d + hashes + idx, oracle=False, nontrivial=_nontrivial,
+                      classify=_classify, timeout=tmo))
+    sts.append(Stream("tables-ftidx-spec", idx[:6100], oracle=True, model_ops=_rename({"ftidx": "ftidxspec", "ftnum": "ftnumspec"}),
+                      nontrivial=_nontrivial, classify=_classify, timeout=tmo))
+    gen = _gen_ops(ctx)
+    sts.append(Stream("tables-gen-mirror", gen, oracle=False, nontrivial=_nontrivial, classify=_classify, timeout=tmo))
+    gen_spec = [o for o in gen if int(o.split()[1]) <= (6000 if ctx.quick else 60000)]
+    sts.append(Stream("tables-gen-spec", gen_spec, oracle=True,
+                      model_ops=_rename({g: g + "spec" for g in ("genpi", "genlpf", "genmu", "genmpf", "genprimes")}),
+                      nontrivial=_nontrivial, classify=_classify, timeout=tmo))
+    bit = _bit_ops(ctx)
+    sts.append(Stream("tables-bit-mirror", bit, oracle=False, classify=_classify, timeout=tmo))
+    sts.append(Stream("tables-bit-spec", bit, oracle=True, model_ops=_rename({"bit": "bitspec"}), classify=_classify, timeout=tmo))
+    # the oracle side of pi_cache: one block per line would hide the x; keep per-x ops but answer them from one sieve
+    sts.append(Stream("tables-picache-spec", ["picacher 0 %d" % PI_CACHE_LIMIT], oracle=True,
+                      model_ops=_rename({"picacher": "pispecr"}), judge=_judge_range, timeout=tmo))
+    sieve_mod = _sieve_module()
+    if sieve_mod is not None:
+        sts += sieve_mod.streams(ctx)
+    return sts
 
 
-def search(ctx, proof_broken, bad, disagreements):
-    return c17sieve.search(ctx, proof_broken, bad, disagreements)
+def _judge_range(ops, impl, mops, model):
+    """ops `picacher a b`: both sides print b-a values; report the first differing x"""
+    dis = []
+    for i, (o, x, y) in enumerate(zip(ops, impl, model)):
+        if x == y:
+            continue
+        a = int(o.split()[1])
+        xs, ys = x.split(), y.split()
+        k = next((j for j in range(min(len(xs), len(ys))) if xs[j] != ys[j]), min(len(xs), len(ys)))
+        dis.append(dict(index=i, op="picache %d" % (a + k), impl=xs[k] if k < len(xs) else "?", model=ys[k] if k < len(ys) else "?"))
+    return dis
+
+
+def _sieve_module():
+    try:
+        import importlib
+        return importlib.import_module("pcv.props.c17sieve")
+    except ImportError:
+        return None
+
+
+# ------------------------------------------------------------------------------------------------ search
+
+def _first_diff(a, b):
+    xs, ys = a.split(), b.split()
+    for j in range(min(len(xs), len(ys))):
+        if xs[j] != ys[j]:
+            return j, xs[j], ys[j]
+    if len(xs) != len(ys):
+        j = min(len(xs), len(ys))
+        return j, (xs[j] if j < len(xs) else "<end>"), (ys[j] if j < len(ys) else "<end>")
+    return None
+
+
+def _obligation_witness(ctx, proof_broken):
+    """A generated obligation no longer checks: name the table entry, and for pi_cache words the smallest x
+    with pi_cache(x) != pi(x), confirmed on the binary."""
+    pat = (r"(piCache_word|piCache_count|setBit_row|unsetBit_row|unsetLarger_row|sieveUnsetSmaller_row|"
+           r"sieveUnsetLarger_row|coprime_row|coprimeIndexes_row)_(\d+)")
+    m = re.search(pat, proof_broken or "")
+    if not m:
+        # the kernel error names file:line only; read the theorem name from the generated file
+        loc = re.search(r"(PcGen/\w+\.lean):(\d+):", proof_broken or "")
+        if loc:
+            try:
+                line = open(os.path.join(core.LEAN, loc.group(1))).read().splitlines()[int(loc.group(2)) - 1]
+                m = re.search(pat, line)
+            except (OSError, IndexError):
+                m = None
+    if not m:
+        return None
+    kind, i = m.group(1), int(m.group(2))
+    w = dict(broken="generated obligation PcGen.Obl.%s_%d" % (kind, i), failing_input=None)
+    if kind in ("piCache_word", "piCache_count"):
+        lo = 240 * i
+        ops = ["picacher %d %d" % (lo, min(lo + 480, PI_CACHE_LIMIT))]
+        exe = core.ensure_harness("rel")
+        _, impl, _, _ = core.run_harness(exe, "\n".join(ops) + "\n", timeout=60)
+        _, spec, _, _ = core.run_model("pispecr %d %d\n" % (lo, min(lo + 480, PI_CACHE_LIMIT)), timeout=120)
+        if impl and spec:
+            d = _first_diff(impl[0], spec[0])
+            if d:
+                w.update(failing_input="PiTable::pi_cache(%d)" % (lo + d[0]), observed=d[1], expected=d[2],
+                         replay_hint="echo 'picache %d' | pcharness ; echo 'pispec %d' | pcdrv" % (lo + d[0], lo + d[0]))
+    else:
+        w["rows"] = "entries %d..%d of the table" % (i, i + 9)
+    return w
+
+
+def search(ctx, proof_broken, bad, dis):
+    rest = []
+    reported = set()
+    oracle_ops = set(d.get("op") for d in dis if d.get("oracle"))
+    dis = sorted(dis, key=lambda d: 0 if d.get("oracle") else 1)
+    for d in dis:
+        if not d.get("oracle") and d.get("op") in oracle_ops and not d.get("stream", "").startswith("sieve"):
+            continue    # the same op already disagrees with the spec value: reported there, with the input
+        op = d.get("op", "")
+        p = op.split()
+        if d.get("stream", "").startswith("sieve"):
+            rest.append(d)
+            continue
+        if p and p[0] in ("ft", "ftd") and not d.get("crash") and not d.get("model_crash"):
+            fd = _first_diff(d["impl"], d["model"])
+            if fd and fd[0] >= 1:
+                idx = fd[0] - 1
+                n = to_number(idx)
+                bits = p[-1]
+                if p[0] == "ft":
+                    y = int(p[1])
+                    call = "FactorTable<uint%s_t>(%s, %s).mu_lpf(%d)" % (bits, p[1], p[2], idx)
+                    cls = "F3-factortable-uninit" if (13 <= y < 169 and fd[2] == str(2 ** int(bits) - 1)) else "ft:" + op.replace(" ", "_")
+                else:
+                    y = int(p[1])
+                    call = "FactorTableD<uint%s_t>(y=%s, z=%s, %s).is_leaf(%d)" % (bits, p[1], p[2], p[3], idx)
+                    cls = "ftd:" + op.replace(" ", "_")
+                if (cls, d["oracle"]) in reported and cls.startswith("F3"):
+                    continue
+                reported.add((cls, d["oracle"]))
+                if len(ctx.res.violations) < 8:
+                    emit_violation(ctx, "correspondence",
+                                   "stream %s: %s [n = to_number(%d) = %d] returns %s, the %s says %s" % (
+                                       d["stream"], call, idx, n, fd[1], "documented encoding (spec)" if d["oracle"] else "model", fd[2]),
+                                   dict(failing_input="%s  (y=%d, n=%d)" % (call, y, n) if d["oracle"] else None,
+                                        broken=None if d["oracle"] else "correspondence stream " + d["stream"],
+                                        y=y, n=n, index=idx, observed=fd[1], expected=fd[2], op=op, stream=d["stream"], key=cls,
+                                        replay_hint="echo '%s' | <cache>/rel/pcharness | cut -d' ' -f%d" % (op, idx + 2)))
+                continue
+        if p and p[0] == "pit" and d.get("oracle") and not d.get("crash") and not d.get("model_crash"):
+            fd = _first_diff(d["impl"], d["model"])
+            qs = p[3:]
+            if fd and fd[0] < len(qs):
+                if "pit-spec" not in reported:
+                    reported.add("pit-spec")
+                    q = int(qs[fd[0]])
+                    emit_violation(ctx, "correspondence",
+                                   "stream %s: PiTable(%s, %s)[%d] returns %s but pi(%d) = %s (oracle sieve)" % (
+                                       d["stream"], p[1], p[2], q, fd[1], q, fd[2]),
+                                   dict(failing_input="PiTable(%s, %s)[%d]" % (p[1], p[2], q), observed=fd[1], expected=fd[2],
+                                        op="pit %s %s %d" % (p[1], p[2], q), stream=d["stream"], key="pit:%s_%s_%d" % (p[1], p[2], q),
+                                        replay_hint="echo 'pit %s %s %d' | <cache>/rel/pcharness" % (p[1], p[2], q)))
+                continue
+        if p and p[0] == "pit" and not d.get("oracle") and not d.get("crash") and not d.get("model_crash"):
+            # a large table (no spec stream): ask the independent oracle sieve for the first differing query
+            fd = _first_diff(d["impl"], d["model"])
+            qs = p[3:]
+            if fd and fd[0] < len(qs) and int(qs[fd[0]]) <= 5 * 10 ** 7 and ("pit-oracle" not in reported):
+                q = int(qs[fd[0]])
+                _, spec, _, _ = core.run_model("pitspec %d 1 %d\n" % (q, q), timeout=300)
+                if spec and spec[0].strip().isdigit() and spec[0].strip() != fd[1]:
+                    reported.add("pit-oracle")
+                    emit_violation(ctx, "correspondence",
+                                   "stream %s: PiTable(%s, %s)[%d] returns %s but pi(%d) = %s (oracle sieve); L2 model says %s" % (
+                                       d["stream"], p[1], p[2], q, fd[1], q, spec[0].strip(), fd[2]),
+                                   dict(failing_input="PiTable(%s, %s)[%d]" % (p[1], p[2], q), observed=fd[1],
+                                        expected=spec[0].strip(), op="pit %s %s %d" % (p[1], p[2], q), stream=d["stream"],
+                                        key="pit:%s_%s_%d" % (p[1], p[2], q),
+                                        replay_hint="echo 'pit %s %s %d' | <cache>/rel/pcharness" % (p[1], p[2], q)))
+                    continue
+        rest.append(d)
+    pb = proof_broken
+    if proof_broken:
+        w = _obligation_witness(ctx, proof_broken)
+        if w is not None:
+            emit_violation(ctx, "proof", proof_broken, w)
+            pb = None
+    sm = _sieve_module()
+    if sm is not None and hasattr(sm, "search"):
+        srest = [d for d in rest if d.get("stream", "").startswith("sieve")]
+        if srest and sm.search(ctx, None, [], srest):
+            rest = [d for d in rest if not d.get("stream", "").startswith("sieve")]
+    default_search(ctx, pb, bad, rest)
+    return True
